@@ -69,3 +69,9 @@ for _pid, _txt in [('C03', 'PARTIAL (behavioural half): after a semantically vis
                    ('C17', 'PARTIAL (behavioural projection): clones have the original meaning; editing one copy leaves the meaning of the other unchanged (z3 equivalence for every input); scope-chain / symbol-identity statements are not claimed.'),
                    ('C18', 'PARTIAL (behavioural projection): pickle round trips of source files, modules and routines preserve the meaning for every input (z3 equivalence); equality/attachment statements are not claimed.')]:
     claim(_pid, 'translation_validation', _txt, TV_NOTE, 'translation validation: symbolic interpretation + SMT equivalence (z3), compiler replay', 'E-SMT', 'DESIGN.md#C16-C18')
+for _pid, _what in [('C33', 'region outlining (caller and generated routine interpreted together) and extraction of internal procedures'),
+                    ('C34', 'call-signature rewrites: derived-type argument expansion, sequence-association resolution, explicit argument shapes, duplicate-argument removal (caller + callee pairs, entry = caller)')]:
+    claim(_pid, 'translation_validation',
+          f'For every template of a stated finite family the real {_what} is applied; original and result are interpreted symbolically and z3 decides, over all input values at the instance sizes, whether any observable can differ (a transformed program that refers to unbound names / mismatching argument lists is a candidate decided by the gfortran replay).',
+          TV_NOTE + (' TypeboundProcedureCallTransformation is outside (type-bound calls are not interpreted).' if _pid == 'C34' else ''),
+          'translation validation: symbolic interpretation of original and transformed IR + SMT equivalence (z3), compiler replay', 'E-SMT', 'DESIGN.md#C28-C34')
